@@ -18,8 +18,30 @@ use dlt_core::parse::{dlt_message, forward_to_next_storage_header, DltParseError
 const ALPHA: [u8; 5] = [b'D', b'L', b'T', 0x01, b'x'];
 const CHUNK: u64 = 2048;
 
-#[derive(Default)]
-pub struct M {}
+pub struct M {
+    keep: dlt_core::filtering::ProcessedDltFilterConfig,
+    drop: dlt_core::filtering::ProcessedDltFilterConfig,
+}
+
+impl Default for M {
+    fn default() -> Self {
+        let mk = |apps: Option<Vec<String>>| -> dlt_core::filtering::ProcessedDltFilterConfig {
+            dlt_core::filtering::DltFilterConfig {
+                min_log_level: None,
+                app_ids: apps,
+                ecu_ids: None,
+                context_ids: None,
+                app_id_count: 9,
+                context_id_count: 0,
+            }
+            .into()
+        };
+        M {
+            keep: mk(None),
+            drop: mk(Some(vec!["\u{1}no".into()])),
+        }
+    }
+}
 
 fn max_len(tier: Tier, light: bool) -> u32 {
     if light {
@@ -234,6 +256,24 @@ impl Monitor for M {
                             .set("got", got)
                     };
                     ctx.shape(&("junkmsg", jl.min(41), tail_k, crate::refcodec::payload_kind(&m.payload)), jl > 0);
+                    // the same with a filter that drops / keeps the message: junk in front changes neither the
+                    // verdict nor where the remainder starts
+                    if jl % 3 == 1 {
+                        for (fname, f) in [("drop", &self.drop), ("keep", &self.keep)] {
+                            ctx.eval();
+                            let a = guarded(|| dlt_message(&buf, Some(f), true).map(|(r, pm)| (r.len(), format!("{:?}", std::mem::discriminant(&pm)), matches!(pm, ParsedMessage::FilteredOut(_)))));
+                            let b = guarded(|| dlt_message(&plain, Some(f), true).map(|(r, pm)| (r.len(), format!("{:?}", std::mem::discriminant(&pm)), matches!(pm, ParsedMessage::FilteredOut(_)))));
+                            match (a, b) {
+                                (Err(p), _) | (_, Err(p)) => ctx.panic_violation("parse.no_panic", &p, || detail("panic with a filter".into())),
+                                (Ok(Ok(x)), Ok(Ok(y))) if x == y => ctx.obs("parse.junk_skipped_with_filter_ok"),
+                                (Ok(x), Ok(y)) => {
+                                    if x.is_ok() != y.is_ok() || x.is_ok() {
+                                        ctx.violation("parse.same_result_with_filter", fname, || detail(format!("with junk: {:?}; without: {:?}", x.as_ref().map_err(|e| format!("{:?}", e)), y.as_ref().map_err(|e| format!("{:?}", e)))));
+                                    }
+                                }
+                            }
+                        }
+                    }
                     match got {
                         Err(p) => ctx.panic_violation("parse.no_panic", &p, || detail("panic".into())),
                         Ok(Ok((off, rl, ParsedMessage::Item(pm)))) => {
@@ -398,7 +438,7 @@ impl Monitor for M {
         let light = ctx.light();
         let ml = max_len(ctx.tier, light);
         super::describe(
-            &format!("search: exhaustive over all {} strings of length <= {} over {{D,L,T,01,x}}; random strings over that alphabet up to 4 KiB; buffers up to 256 KiB filled with partial patterns with the full pattern planted at the end / straddling 16,32,64,128,4096-byte block boundaries / twice / absent, searched from every start alignment 0..63. parse: junk lengths 0..=40 exhaustively per generated storage-header message (junk ending in '', D, DL, DLT; pattern-free by construction and re-checked with the naive search) plus junk up to 72000 bytes; junk ++ the same message cut at every offset 0..24 and at random offsets (same outcome class as the cut message alone; exact-size allocations). stream: 1-12 messages (1 in 12 streams: 600-1800 messages, a buffer well beyond 64 KiB) with junk between, 1 in 5 messages with a dialect id field (non-UTF-8 bytes or an early NUL; the recovered id is the clean prefix), recovered by repeated parsing. distinct = (class, length bucket, first-occurrence bucket and alignment mod 64, partial-pattern count) resp. (junk length, junk tail, payload kind); non-trivial = input contains a partial or full pattern / junk is non-empty", n_strings(ml), ml),
+            &format!("search: exhaustive over all {} strings of length <= {} over {{D,L,T,01,x}}; random strings over that alphabet up to 4 KiB; buffers up to 256 KiB filled with partial patterns with the full pattern planted at the end / straddling 16,32,64,128,4096-byte block boundaries / twice / absent, searched from every start alignment 0..63. parse: junk lengths 0..=40 exhaustively per generated storage-header message (every third length also under a dropping and a keeping filter) (junk ending in '', D, DL, DLT; pattern-free by construction and re-checked with the naive search) plus junk up to 72000 bytes; junk ++ the same message cut at every offset 0..24 and at random offsets (same outcome class as the cut message alone; exact-size allocations). stream: 1-12 messages (1 in 12 streams: 600-1800 messages, a buffer well beyond 64 KiB) with junk between, 1 in 5 messages with a dialect id field (non-UTF-8 bytes or an early NUL; the recovered id is the clean prefix), recovered by repeated parsing. distinct = (class, length bucket, first-occurrence bucket and alignment mod 64, partial-pattern count) resp. (junk length, junk tail, payload kind); non-trivial = input contains a partial or full pattern / junk is non-empty", n_strings(ml), ml),
             &["the naive 4-byte window scan is the reference for 'first occurrence'", "junk/message combinations in which an earlier pattern occurrence forms by accident are outside the quantifier and skipped (counted)"],
             &[("search.found_after_junk_ok", super::scaled(ctx, 5000)), ("search.absent_ok", super::scaled(ctx, 5000)), ("parse.junk_skipped_ok", super::scaled(ctx, 5000)), ("stream.recovered_ok", super::scaled(ctx, 300))],
         )
